@@ -39,7 +39,10 @@ func tabStops(s string) []int {
 
 // snippetProblem checks "consecutive tab-stop numbers, each at most once (an
 // optional final stop aside)".
-func snippetProblem(s string) string {
+// fromOne: the candidate inserts a whole new item (block, attribute), so no earlier stop
+// exists and the numbering starts at 1; a label candidate continues the numbering of
+// the header it completes.
+func snippetProblem(s string, fromOne bool) string {
 	stops := tabStops(s)
 	seen := map[int]int{}
 	var nz []int
@@ -57,6 +60,9 @@ func snippetProblem(s string) string {
 		return ""
 	}
 	sort.Ints(nz)
+	if fromOne && nz[0] != 1 {
+		return fmt.Sprintf("tab stops do not start at 1: %v", nz)
+	}
 	for i := 1; i < len(nz); i++ {
 		if nz[i] != nz[i-1]+1 {
 			return fmt.Sprintf("tab stops are not consecutive: %v", nz)
@@ -146,7 +152,7 @@ func oracleCandidates(c *caseCtx, q core.Query, r core.Result) {
 		if tabStopRe.MatchString(te.NewText) {
 			viol("newtext-has-tabstop", fmt.Sprintf("plain text form %q contains tab-stop syntax", te.NewText))
 		}
-		if p := snippetProblem(te.Snippet); p != "" {
+		if p := snippetProblem(te.Snippet, k == "block" || k == "attribute"); p != "" {
 			pf := ""
 			if q.Kind == core.QCompletionPrefill {
 				pf = "+prefill"
